@@ -684,7 +684,7 @@ fn rule_of(prop: &str) -> &'static str {
         "C07" => "Scenarios (value, printer options, entry point, adapter) are drawn from VERIF_SEED; per scenario: accept-at-most-k for k=1..24, random k per call, BufWriter/dyn adapters, Interrupted schedules, a hard write error at every output offset 0..=len, zero-length acceptance from every offset 0..len on, and for Display a fmt sink failing after every byte budget. evaluations counts print calls executed. Non-trivial: a sink fault fired, or a short write or Interrupted happened; distinct_nontrivial counts distinct tuples (emission class at the fault offset, fault kind, adapter, entry point, outcome).",
         "C19" => "Well-formed single-datum texts (checked by the parser itself) are drawn from the datum grammar and the printer layout; for every text the peer-close point is enumerated over every proper prefix length, on slice, str (when valid UTF-8) and a stream that ends there; plus streaming-receiver histories and location/conversion monitors on malformed input with injected read errors. evaluations counts parser executions. Non-trivial: the prefix ends inside a token or structure (anything but a clean datum boundary); distinct_nontrivial counts distinct tuples (lexical state at the cut, source, outcome class) plus fault tuples of the monitor runs.",
         "C12" => "Call histories on one long-lived parser are drawn from VERIF_SEED: W-queue (printed values, trivia at every token boundary, FIFO model checked op by op; one run in four with transient read faults), W-trivia (same tokens, two trivia draws), W-any (arbitrary text; termination, progress and agreement of the four iteration modes). evaluations counts parser executions (histories). Non-trivial: a history with at least two operations after a first error, or a fault fired inside a history, or a queue run with mixed operations; distinct_nontrivial counts distinct tuples (workload, source, history-shape class, fault kind, lexical state, outcome class).",
-        "C03" => "Robustness histories (every input of one and two bytes once, every input of three bytes once in the thorough tier and every sixteenth block of 256 of them in the quick tier - set_sizes counts them - and arbitrary bytes from soups, mutations, tiny strings and layouts; all 1536 option sets; str, slice and stream sources with chunking, Interrupted, transient and sticky errors and early end-of-stream-then-more-data), pathological nesting up to 10^6 levels of every opener and mixtures, and error storms followed by a sentinel and a 100-level probe. evaluations counts histories executed. Non-trivial: at least two operations after a first error, a fired fault, nesting beyond the limit, or a conclusive storm; distinct_nontrivial counts distinct tuples.",
+        "C03" => "Robustness histories (every input of one and two bytes once, every input of three bytes once in the thorough tier and every sixteenth block of 256 of them in the quick tier - set_sizes counts them - and arbitrary bytes from soups, mutations, tiny strings and layouts; all 1536 option sets; str, slice and stream sources with chunking, Interrupted, transient and sticky errors and early end-of-stream-then-more-data), pathological nesting up to 10^6 levels of every opener and mixtures, flat lists and vectors of up to 400 000 elements (closed, cut short, ending in an error), and error storms followed by a sentinel and a 100-level probe. evaluations counts histories executed. Non-trivial: at least two operations after a first error, a fired fault, nesting beyond the limit, or a conclusive storm; distinct_nontrivial counts distinct tuples.",
         "C17" => "W-utf8 texts (every class of 1-4 byte sequence, valid and ill-formed, inside symbols, strings, characters, comments and keywords, with escapes adjacent, long tokens) run as histories on str, slice and stream sources with read faults aimed inside multi-byte sequences; every returned str is re-validated and the five unchecked-conversion sites carry an assertion hook. evaluations counts histories executed. Non-trivial: the text contains an ill-formed or multi-byte sequence and the history continued after an error or a fault fired; distinct_nontrivial counts distinct tuples.",
         _ => "",
     }
@@ -933,7 +933,7 @@ fn expected_probes(prop: &str) -> Vec<&'static str> {
         ],
         "C19" => vec!["c19.prefix_ok", "c19.prefix_eof", "c19.trunc_texts", "c19.receiver_runs", "c19.receiver_waits", "c19.monitor_runs", "errors.io", "errors.syntax", "errors.eof"],
         "C12" => vec!["c12.storm_text_runs", "c12.queue_runs", "c12.trivia_runs", "c12.mode_agreement_runs", "c12.fault_in_history", "c12.config_strict", "c12.config_faulty", "hist.any_benign_runs"],
-        "C03" => vec!["hist.any_benign_runs", "hist.any_faulty_runs", "c03.deep_runs", "c03.storm_runs", "c03.storm_conclusive", "c03.storm_overdeep_probe_reached", "c03.storm_with_transient_faults", "c03.enumerated_tiny_inputs", "c03.enumerated_len3_inputs", "c03.long_token_runs", "c03.single_shot_runs", "errors.io", "errors.syntax", "errors.eof"],
+        "C03" => vec!["hist.any_benign_runs", "hist.any_faulty_runs", "c03.deep_runs", "c03.storm_runs", "c03.storm_conclusive", "c03.storm_overdeep_probe_reached", "c03.storm_with_transient_faults", "c03.enumerated_tiny_inputs", "c03.enumerated_len3_inputs", "c03.wide_runs", "c03.long_token_runs", "c03.single_shot_runs", "errors.io", "errors.syntax", "errors.eof"],
         "C17" => vec!["hist.any_benign_runs", "hist.any_faulty_runs", "c17.printer_checks", "hook.site0", "hook.site1", "hook.site2", "hook.site3"],
         _ => vec![],
     }
